@@ -636,8 +636,12 @@ def finish(prop, run, ev, cov, violations, corr_fail, spec_fail, forb):
     ev["violations"] = violations
     if run.notes:
         cov["notes"] = run.notes
-    os.makedirs(os.path.join(VERIF, "evidence"), exist_ok=True)
-    with open(os.path.join(VERIF, "evidence", prop.id + ".json"), "w") as f:
+    # evidence/ only ever describes /repo itself; runs against a scratch tree go to build/
+    evdir = os.path.join(VERIF, "evidence") if os.path.realpath(REPO) == "/repo" \
+        else os.path.join(BUILD, "evidence-scratch")
+    ev["repo"] = REPO
+    os.makedirs(evdir, exist_ok=True)
+    with open(os.path.join(evdir, prop.id + ".json"), "w") as f:
         json.dump(ev, f, indent=1, default=str)
     log("%s %s: %d cases, %d theorems (%d discharged), %d corr disagreements, %d violations, %.1fs"
         % (prop.id, run.tier, cov["evaluations"], cov["obligations"], cov["discharged"],
